@@ -1,5 +1,5 @@
 /-
-Line-protocol driver for Model.Window at Float.  tp(v) = p0 + p1*v + p2*v*v, tm(v) = m0 + m1*v + m2*v*v; root f a b = a + fr*(b-a).
+Line-protocol driver for Model.Window at Float.  tp(v) = p0 + p1*v + p2*v*v, tm(v) = m0 + m1*v + m2*v*v; root f a b = 50 bisection steps on f (the same floating-point operations as the harness stub), so that the two cuts differ.
 in : `deflag <vJ> <vMin> <vLow> <TMaxLow> <TMaxHigh> <p0> <p1> <p2> <m0> <m1> <m2> <fr> <endLow 0/1> <endHigh 0/1>`
      `deton  <vJ> <TMaxLow> <m0> <m1> <m2> <fr>`                          (floats as UInt64 bit patterns, flags plain)
 out: `<vmax bits> high=<-|0|1> low=<-|0|1>`  |  `<v bits>`
@@ -12,16 +12,31 @@ def sb (x : Float) : String := toString x.toBits.toNat
 def so : Option Bool → String
   | none => "-" | some true => "1" | some false => "0"
 
+/-- bisection with a fixed number of steps; identical operation sequence in the Python stub -/
+def bisect (f : Float → Float) (a b : Float) : Float := Id.run do
+  let mut lo := a
+  let mut hi := b
+  let mut flo := f lo
+  for _ in [0:50] do
+    let mid := lo + 0.5 * (hi - lo)
+    let fm := f mid
+    if flo * fm ≤ 0.0 then
+      hi := mid
+    else
+      lo := mid
+      flo := fm
+  return lo + 0.5 * (hi - lo)
+
 def step (toks : List String) : String :=
   match toks with
-  | ["deflag", vJ, vMin, vLow, tml, tmh, p0, p1, p2, m0, m1, m2, fr, el, eh] =>
+  | ["deflag", vJ, vMin, vLow, tml, tmh, p0, p1, p2, m0, m1, m2, _fr, el, eh] =>
     let tp := fun (v : Float) => fl p0 + fl p1 * v + fl p2 * (v * v)
     let tm := fun (v : Float) => fl m0 + fl m1 * v + fl m2 * (v * v)
-    let r := fastestDeflag 0.0 tp tm (fun _ a b => a + fl fr * (b - a)) (fl vJ) (fl vMin) (fl vLow) (fl tml) (fl tmh) (el == "1") (eh == "1")
+    let r := fastestDeflag 0.0 tp tm (fun f a b => bisect f a b) (fl vJ) (fl vMin) (fl vLow) (fl tml) (fl tmh) (el == "1") (eh == "1")
     s!"{sb r.vmax} high={so r.setHigh} low={so r.setLow}"
-  | ["deton", vJ, tml, m0, m1, m2, fr] =>
+  | ["deton", vJ, tml, m0, m1, m2, _fr] =>
     let tm := fun (v : Float) => fl m0 + fl m1 * v + fl m2 * (v * v)
-    sb (slowestDeton 0.0 1.0 1e-4 0.01 tm (fun _ a b => a + fl fr * (b - a)) (fl vJ) (fl tml))
+    sb (slowestDeton 0.0 1.0 1e-4 0.01 tm (fun f a b => bisect f a b) (fl vJ) (fl tml))
   | _ => "bad-op"
 
 partial def loop (h : IO.FS.Stream) (o : IO.FS.Stream) : IO Unit := do
